@@ -6,6 +6,8 @@ import ast
 from ..cfg import handler_names
 from ..core import AnalysisError, calls_in, call_name, dotted, unparse, walk_no_nested
 from ..match import kwarg
+from ..cfg import CFG
+from ..facts import assign_facts, show
 from ..report import Ctx
 from .c08 import _event, scope_units
 
@@ -63,19 +65,34 @@ def r1_arguments_in_caller_scope(ctx: Ctx) -> None:
     init = ctx.repo.func(NODES, "SymbolNode.__init__")
     st = {unparse(n.targets[0]): unparse(n.value) for n in walk_no_nested(init.node) if isinstance(n, ast.Assign)}
     ctx.check(st.get("self.in_parent_scope") == "in_parent_scope" and "in_parent_scope" in init.params(), "SymbolNode.__init__:flag", "stores the in_parent_scope argument")
-    sw = [s for s in pa.node.body if isinstance(s, ast.If) and "self.in_parent_scope" in unparse(s.test)]
+    saved = [s for s in pa.node.body if isinstance(s, ast.Assign) and unparse(s.value) == "self.resolver.current_scope" and isinstance(s.targets[0], ast.Name)]
+    if len(saved) != 1:
+        ctx.fail("SymbolNode.pc_after:evaluates-in-parent", "the current scope is not saved before the evaluation, so it cannot be switched and restored")
+        return
+    S = saved[0].targets[0].id  # type: ignore[union-attr]
+    facts = assign_facts(pa, "self.resolver.current_scope", keep=(S,))
+    switch = [(v, c) for v, c in facts if v == f"{S}.parent"]
+    others = [(v, c) for v, c in facts if v not in (f"{S}.parent", S)]
+    ok_switch = len(switch) == 1 and ("self.in_parent_scope", True) in switch[0][1] and (f"{S}.parent is None", False) in switch[0][1]
     tries = [s for s in pa.node.body if isinstance(s, ast.Try) and s.finalbody]
-    saved = [s for s in pa.node.body if isinstance(s, ast.Assign) and unparse(s.value) == "self.resolver.current_scope"]
-    ok = len(sw) == 1 and len(tries) == 1 and len(saved) == 1
-    if ok:
-        sv = unparse(saved[0].targets[0])
-        ok = ([unparse(b) for b in sw[0].body] == [f"self.resolver.current_scope = {sv}.parent"]
-              and any(call_name(c) == "eval_expression" for c in calls_in(ast.Module(body=tries[0].body, type_ignores=[])))
-              and [unparse(f) for f in tries[0].finalbody] == [f"self.resolver.current_scope = {sv}"]
-              and pa.node.body.index(sw[0]) < pa.node.body.index(tries[0]))
-        adds = [c for c in calls_in(pa.node) if (call_name(c) or "").endswith("add_symbol")]
-        ok = ok and len(adds) == 1 and unparse(adds[0].func.value) == sv  # type: ignore[attr-defined]
-    ctx.check(bool(ok), "SymbolNode.pc_after:evaluates-in-parent", "switches to the parent scope for the evaluation only, restores in finally, and defines the parameter in the macro's own scope")
+    ok_restore = len(tries) == 1 and any(call_name(c) == "eval_expression" for b in tries[0].body for c in calls_in(b)) and \
+        [unparse(f) for f in tries[0].finalbody] == [f"self.resolver.current_scope = {S}"]
+    g = CFG(pa.node)
+    sw_nodes = [g.node_of(n) for n in walk_no_nested(pa.node) if isinstance(n, ast.Assign) and unparse(n.targets[0]) == "self.resolver.current_scope"
+                and n not in (tries[0].finalbody if tries else [])]
+    ok_order = bool(tries) and all(pa.node.body.index(_top_stmt(pa.node, g.nodes[n].ast)) < pa.node.body.index(tries[0]) for n in sw_nodes)
+    adds = [c for c in calls_in(pa.node) if (call_name(c) or "").endswith("add_symbol")]
+    ok_add = len(adds) == 1 and unparse(adds[0].func.value) == S  # type: ignore[attr-defined]
+    ctx.check(ok_switch and not others and ok_restore and ok_order and ok_add, "SymbolNode.pc_after:evaluates-in-parent",
+              "switches to the parent scope for the evaluation only (when flagged and a parent exists), restores in finally, and defines the parameter in the macro's own scope; "
+              f"found assignments: {show(facts)}")
+
+
+def _top_stmt(fn: ast.FunctionDef, node: ast.AST) -> ast.stmt:
+    for s in fn.body:
+        if any(x is node for x in ast.walk(s)):
+            return s
+    raise AnalysisError("statement not found at top level")
 
 
 def r2_positional_binding(ctx: Ctx) -> None:
@@ -84,10 +101,15 @@ def r2_positional_binding(ctx: Ctx) -> None:
     ctx.count("binding_loops", len(loops))
     idx_vars = []
     for lp in loops:
-        ok = isinstance(lp.iter, ast.Call) and call_name(lp.iter) == "enumerate" and unparse(lp.iter.args[0]) == "macro_args" and isinstance(lp.target, ast.Tuple)
-        ctx.check(ok, f"generate_macro_application:loop `{unparse(lp.iter)}`", "iterates the macro's parameter list with its position")
-        if ok:
-            idx_vars.append((lp, unparse(lp.target.elts[0]), unparse(lp.target.elts[1])))  # type: ignore[union-attr]
+        it = unparse(lp.iter)
+        if it == "enumerate(macro_args)" and isinstance(lp.target, ast.Tuple) and len(lp.target.elts) == 2:
+            idx_vars.append((lp, unparse(lp.target.elts[0]), unparse(lp.target.elts[1])))
+            ctx.ok(f"generate_macro_application:loop `{it}`", "iterates the macro's parameter list with its position")
+        elif it in ("range(len(macro_args))", "range(0, len(macro_args))") and isinstance(lp.target, ast.Name):
+            idx_vars.append((lp, lp.target.id, f"macro_args[{lp.target.id}]"))
+            ctx.ok(f"generate_macro_application:loop `{it}`", "iterates the positions of the macro's parameter list")
+        else:
+            raise AnalysisError(f"generate_macro_application: loop over `{it}` is not a recognised walk of the parameter list")
     for lp, iv, pv in idx_vars:
         for n in walk_no_nested(lp):
             if isinstance(n, ast.Subscript) and unparse(n.value) in ("macro_args_values", "evaluated_args", "node.args"):
